@@ -512,6 +512,18 @@ def constructible (k : GunKind) (ssl : Bool) : Bool :=
   | .http2 => ssl
   | _ => true
 
+/-- a tunnel of the connect gun (guns/http/connect.go): the address its TCP connection is dialed at and the authority its
+`CONNECT` request names -/
+structure Tunnel where
+  tcp : Str
+  authority : Str
+  deriving DecidableEq, Repr
+
+/-- NewConnectGun + newConnectDialFunc: the proxy address is `TargetResolved` (`Target` when that is empty); the transport
+asks the dial function for the request's `URL.Host`, which becomes the CONNECT authority -/
+def connectTunnel (g : Gun) (s : Shot) : Tunnel :=
+  { tcp := if g.targetResolved = [] then g.target else g.targetResolved, authority := s.dial }
+
 /-! ## connections: one http.Transport per gun (NewBaseGun), an instance shoots one request at a time -/
 
 /-- one request as its gun's transport sees it -/
@@ -556,6 +568,128 @@ def countClosing : List Flight → Nat
 /-- which gun shoots the j-th acquired ammo: the schedule, cyclic; round-robin when none is given -/
 def gunOf (inst : Nat) (sched : List Nat) (j : Nat) : Nat :=
   if sched = [] then j % inst else sched.getD (j % sched.length) 0
+
+/-! ## time and the transport's options (round 2)
+
+components/guns/http/client.go: `TransportConfig` (the gun options `tls-handshake-timeout` … `expect-continue-timeout`,
+squashed into the gun's config), `DefaultTransportConfig`, and `NewTransport`, which copies every field into the
+`http.Transport` of the gun's client. Durations are Go's: nanoseconds. What net/http does with the fields (library,
+observed on every run): an idle connection is dropped once it has been idle for `IdleConnTimeout` (> 0); a
+connection is kept for reuse at all only when keep-alives are on and neither idle limit is negative; an answer whose
+header takes `ResponseHeaderTimeout` (> 0) or longer is lost together with its connection. `TLSHandshakeTimeout`,
+`ExpectContinueTimeout`, `DisableCompression` have no say about reuse. -/
+
+/-- guns/http/client.go TransportConfig -/
+structure TransportCfg where
+  tlsHandshakeTimeout : Int
+  disableKeepAlives : Bool
+  disableCompression : Bool
+  maxIdleConns : Int
+  maxIdleConnsPerHost : Int
+  idleConnTimeout : Int
+  responseHeaderTimeout : Int
+  expectContinueTimeout : Int
+  deriving DecidableEq, Repr
+
+/-- the fields of http.Transport that NewTransport fills from the configuration -/
+structure Transport where
+  tlsHandshakeTimeout : Int
+  disableKeepAlives : Bool
+  disableCompression : Bool
+  maxIdleConns : Int
+  maxIdleConnsPerHost : Int
+  idleConnTimeout : Int
+  responseHeaderTimeout : Int
+  expectContinueTimeout : Int
+  deriving DecidableEq, Repr
+
+def msec : Int := 1000000
+def sec : Int := 1000000000
+
+/-- client.go DefaultTransportConfig -/
+def defaultTransportCfg : TransportCfg :=
+  { tlsHandshakeTimeout := 1 * sec, disableKeepAlives := false, disableCompression := true, maxIdleConns := 0,
+    maxIdleConnsPerHost := 0, idleConnTimeout := 90 * sec, responseHeaderTimeout := 0, expectContinueTimeout := 1 * sec }
+
+/-- client.go NewTransport: every option reaches the transport field of its own name -/
+def newTransport (c : TransportCfg) : Transport :=
+  { tlsHandshakeTimeout := c.tlsHandshakeTimeout, disableKeepAlives := c.disableKeepAlives,
+    disableCompression := c.disableCompression, maxIdleConns := c.maxIdleConns,
+    maxIdleConnsPerHost := c.maxIdleConnsPerHost, idleConnTimeout := c.idleConnTimeout,
+    responseHeaderTimeout := c.responseHeaderTimeout, expectContinueTimeout := c.expectContinueTimeout }
+
+/-- the `config:"…"` names of TransportConfig's fields (Go field name, option name), sorted by field name -/
+def transportTags : List (String × String) :=
+  [("DisableCompression", "disable-compression"), ("DisableKeepAlives", "disable-keep-alives"),
+   ("ExpectContinueTimeout", "expect-continue-timeout"), ("IdleConnTimeout", "idle-conn-timeout"),
+   ("MaxIdleConns", "max-idle-conns"), ("MaxIdleConnsPerHost", "max-idle-conns-per-host"),
+   ("ResponseHeaderTimeout", "response-header-timeout"), ("TLSHandshakeTimeout", "tls-handshake-timeout")]
+
+/-- a gun option given in the config: its documented name and its value (a duration in ns, a count, or 0/1) -/
+abbrev TransportOpt := String × Int
+
+/-- config decoding of one transport option: the option name selects the field through `transportTags` -/
+def setTransportOpt (c : TransportCfg) (o : TransportOpt) : TransportCfg :=
+  match (transportTags.find? fun p => p.2 == o.1).map (·.1) with
+  | some "TLSHandshakeTimeout" => { c with tlsHandshakeTimeout := o.2 }
+  | some "DisableKeepAlives" => { c with disableKeepAlives := o.2 != 0 }
+  | some "DisableCompression" => { c with disableCompression := o.2 != 0 }
+  | some "MaxIdleConns" => { c with maxIdleConns := o.2 }
+  | some "MaxIdleConnsPerHost" => { c with maxIdleConnsPerHost := o.2 }
+  | some "IdleConnTimeout" => { c with idleConnTimeout := o.2 }
+  | some "ResponseHeaderTimeout" => { c with responseHeaderTimeout := o.2 }
+  | some "ExpectContinueTimeout" => { c with expectContinueTimeout := o.2 }
+  | _ => c
+
+/-- the gun's transport for the options given: defaults, overridden option by option, through NewTransport -/
+def transportOf (opts : List TransportOpt) : Transport :=
+  newTransport (opts.foldl setTransportOpt defaultTransportCfg)
+
+/-- net/http: a connection that served a request goes back to the idle pool -/
+def keeps (t : Transport) : Bool :=
+  !t.disableKeepAlives && decide (0 ≤ t.maxIdleConnsPerHost) && decide (0 ≤ t.maxIdleConns)
+
+/-- net/http: the idle connection is gone when the gun comes back after `pause` ns -/
+def idleExpired (t : Transport) (pause : Nat) : Bool :=
+  decide (0 < t.idleConnTimeout) && decide (t.idleConnTimeout ≤ (pause : Int))
+
+/-- net/http: the answer's header takes `delay` ns: lost (with its connection) when that reaches the timeout -/
+def responseLost (t : Transport) (delay : Nat) : Bool :=
+  decide (0 < t.responseHeaderTimeout) && decide (t.responseHeaderTimeout ≤ (delay : Int))
+
+/-- a request with its timing: `pause` = time since the same gun's previous request that arrived was answered,
+`delay` = time the target takes to answer this one -/
+structure TFlight where
+  gun : Nat
+  arrived : Bool
+  close : Bool
+  pause : Nat
+  delay : Nat
+  deriving DecidableEq, Repr
+
+def TFlight.untimed (f : TFlight) : Flight := { gun := f.gun, arrived := f.arrived, close := f.close }
+
+/-- `connStep` with time: the idle connection is reused unless it expired during the pause; the connection goes back
+to the pool iff the transport keeps connections, the request did not ask to close and its answer was not lost -/
+def tconnStep (t : Transport) (st : List Bool × Nat) (f : TFlight) : List Bool × Nat :=
+  if !f.arrived then st
+  else (st.1.set f.gun (keeps t && !f.close && !responseLost t f.delay),
+        st.2 + (if st.1.getD f.gun false && !idleExpired t f.pause then 0 else 1))
+
+def tconnRunFrom (t : Transport) (st : List Bool × Nat) (fs : List TFlight) : List Bool × Nat :=
+  fs.foldl (tconnStep t) st
+
+/-- connections the target sees for the timed flights `fs` of `inst` guns whose clients use transport `t` -/
+def tconnRun (t : Transport) (inst : Nat) (fs : List TFlight) : Nat :=
+  (tconnRunFrom t (List.replicate inst false, 0) fs).2
+
+def countExpired (t : Transport) : List TFlight → Nat
+  | [] => 0
+  | f :: fs => (if f.arrived && idleExpired t f.pause then 1 else 0) + countExpired t fs
+
+def countLost (t : Transport) : List TFlight → Nat
+  | [] => 0
+  | f :: fs => (if f.arrived && responseLost t f.delay then 1 else 0) + countLost t fs
 
 /-! ## transport + server (net/http; observed, not proved) -/
 
